@@ -161,9 +161,14 @@ type c07Obs struct {
 
 type dubboInvoker struct {
 	f func(ctx context.Context, inv protocol.Invocation)
+	// side: "consumer" for the invoker behind a reference, "provider" for an
+	// exported service (dubbo-go puts it into the url)
+	side string
 }
 
-func (d *dubboInvoker) GetURL() *common.URL { return nil }
+func (d *dubboInvoker) GetURL() *common.URL {
+	return common.NewURLWithOptions(common.WithParamsValue("side", d.side))
+}
 func (d *dubboInvoker) IsAvailable() bool   { return true }
 func (d *dubboInvoker) Destroy()            {}
 func (d *dubboInvoker) Invoke(ctx context.Context, inv protocol.Invocation) protocol.Result {
@@ -266,7 +271,7 @@ func (o *c07Obs) call(c context.Context, ch *C07Node) {
 		r.ServeHTTP(httptest.NewRecorder(), req)
 	case "dubbo", "dubbo-golower", "dubbo-java", "dubbo-lower", "dubbo-fwd":
 		f := sdubbo.GetDubboTransactionFilter()
-		client := &dubboInvoker{f: func(ctx context.Context, inv protocol.Invocation) {
+		client := &dubboInvoker{side: "consumer", f: func(ctx context.Context, inv protocol.Invocation) {
 			att := map[string]interface{}{}
 			switch ch.Link {
 			case "dubbo", "dubbo-fwd":
@@ -288,7 +293,7 @@ func (o *c07Obs) call(c context.Context, ch *C07Node) {
 					att["tx_xid"] = v
 				}
 			}
-			server := &dubboInvoker{f: func(sctx context.Context, _ protocol.Invocation) { o.exec(sctx, ch) }}
+			server := &dubboInvoker{side: "provider", f: func(sctx context.Context, _ protocol.Invocation) { o.exec(sctx, ch) }}
 			f.Invoke(context.Background(), server, invocation.NewRPCInvocation("m", nil, att))
 		}}
 		out := map[string]interface{}{}
